@@ -76,7 +76,7 @@ func ValidateResponse(ctx context.Context, input *ResponseValidationInput) error
 
 	headers := make([]string, 0, len(response.Headers))
 	for k := range response.Headers {
-		if k != headerCT {
+		if !strings.EqualFold(k, headerCT) {
 			headers = append(headers, k)
 		}
 	}
